@@ -19,7 +19,9 @@ BOUND = ("(union) disjoint unions of two networks with <= 4 variables each (hand
          "replaced by constants vs the part of the free-input bfs diagram below the node of that valuation (nodes, edges, motifs, attractor sets); "
          "under the other complete strategies (build, block, scc, attractor-seed, dfs) the attractors reported inside every input valuation are compared with the "
          "brute-force attractors of that valuation and with the diagram of the network with the sources fixed, built by the same strategy; under build, block and dfs also "
-         "node spaces, expansion flags and edges (with motifs) of the fixed-input diagram vs the part of the free-input diagram reachable from the valuation node; "
+         "node spaces, expansion flags and edges (with motifs) of the fixed-input diagram vs the part of the free-input diagram reachable from the valuation node (not under scc and "
+         "attractor-seed expansion; not when constant propagation at the root creates further inputs, which block expansion fixes jointly with the declared ones - see "
+         "findings/candidate_scc_emergent_inputs.py and findings/candidate_block_root_inputs_after_constants.py); "
          "(conditioned) input-conditioned modules with IDENTICAL stable motifs (clean under one input value, motif-avoidant under the other; escape-term and multiplexed variants, "
          "1-2 sources, with downstream / independent extra modules, seeded perturbations confirmed by brute force) and networks with <= 8 variables in which 1-3 further variables become "
          "inputs once an input is fixed (6 forms x 7 accompanying modules, seeded mixes) - as (inputs) cases under build and block first, then the other strategies; "
@@ -73,6 +75,8 @@ def shape_cases(seed, tier):
 # strategies (besides bfs) under which the SHAPE of the fixed-input diagram is compared with the part below the valuation node.  expand_scc is not among them:
 # it fixes input combinations jointly only at the root, so variables that become inputs below a valuation node are expanded one by one there but jointly in the
 # fixed-input network (candidate finding /verif/findings/candidate_scc_emergent_inputs.py); attractor-seed expansion is greedy (no shape claim).
+# Under build / block the comparison is skipped when the valuation node does not exist because constant propagation at the root created further inputs, which block
+# expansion fixes jointly with the declared ones (observation /verif/findings/candidate_block_root_inputs_after_constants.py).
 SHAPE_STRATS = ["build", "block", "dfs"]
 
 
@@ -327,6 +331,11 @@ def compare_shapes(free, fx, net, val, where):
     clause = "the diagram with the sources fixed is isomorphic to the part of the free-input diagram below the node for that valuation"
     top = free.find_node(net.percolate(val))
     if top is None:
+        root_inputs = net.restrict(net.percolate({})).source_vars()
+        if set(root_inputs) - set(val):
+            # constant propagation at the root created further inputs: block expansion fixes them jointly with the declared inputs, so the node of a valuation of the
+            # declared inputs alone need not exist (observation /verif/findings/candidate_block_root_inputs_after_constants.py); the shape clause is not applied here
+            return []
         return [fail("valuation_node_missing", "the free-input diagram has a node for every input valuation", where, expected=net.percolate(val))]
     below = sub_diagram(free, top)
     nodes_a = sorted(skey(free.node_data(i)["space"]) for i in below)
